@@ -154,6 +154,13 @@ Theorem C17_child_register : forall s c f ex, good (length s) c ->
   /\ (forall p, pdata (sget s2 p) = pdata (sget s p)).
 Proof. exact child_register. Qed.
 
+(* delete_function(f) through any context: exactly the plain contexts of its own layer lose f (and the exclusive
+   mark of f's name); every other plain context - ancestors included - keeps everything, and no variable changes *)
+Theorem C17_delete_function : forall f c s q,
+  sget (delete_function s c f) q
+  = if existsb (Nat.eqb q) (sources c) then plain_delete_function (sget s q) f else sget s q.
+Proof. exact delete_function_sget. Qed.
+
 (* the premise of C17_child_shadow holds for every context of every reachable state *)
 Theorem C17_history_good : forall ops,
   Forall (good (length (st (run_state init_state ops)))) (env (run_state init_state ops)).
@@ -178,6 +185,7 @@ Proof. vm_compute. repeat split. Qed.
 
 Print Assumptions C17_child_transparent.
 Print Assumptions C17_child_shadow.
+Print Assumptions C17_delete_function.
 Print Assumptions C17_child_register.
 Print Assumptions C17_child_transparent_functions.
 Print Assumptions C17_history_good.
